@@ -82,7 +82,11 @@ func behave(b string, r reqLog, chain *vh.Chain, avail int, from int, chunk int)
 	switch b {
 	case "serve", "full", "prefix", "prefixStall":
 		if o > avail {
-			return notFoundPlan(), nil, true
+			// (answered after a few virtual milliseconds: a client that keeps asking the same peer for what it does not
+			// have must run into its caller's deadline, not spin in zero virtual time)
+			pl := notFoundPlan()
+			pl.delay = 20 * time.Millisecond
+			return pl, nil, true
 		}
 		n := a
 		if o+n-1 > avail {
@@ -213,7 +217,12 @@ func TestRange(t *testing.T) {
 		var second []RangeEv
 		synctest.Test(t, func(t *testing.T) {
 			bg := context.Background()
-			chain := vh.NewChain(networkID, 1, from+amount+chunk+8, time.Now().Add(-time.Hour), time.Second, 0)
+			shift := mbt.Bool(c, "shiftSecond") // the second call asks for the NEXT range (from+amount ..), held by other peers
+			chainLen := from + amount + chunk + 8
+			if shift {
+				chainLen += amount + 2
+			}
+			chain := vh.NewChain(networkID, 1, chainLen, time.Now().Add(-time.Hour), time.Second, 0)
 			net, hosts := newNet(t, len(peersIn)+1)
 			var trusted []peer.ID
 			for i, pi := range peersIn {
@@ -337,7 +346,13 @@ func TestRange(t *testing.T) {
 					}
 					synctest.Wait()
 				}
-				log.add(RangeEv{Tr: curTr, Ev: "start", From: from, Amount: amount, Chunk: chunk, Mode: mode, Capable: capable})
+				from2, toU2 := from, toU
+				if shift {
+					// a peer that served the first range and has nothing beyond it must not keep the peers that hold the
+					// next range (and have served nothing yet) out of the second call
+					from2, toU2 = from+amount, uint64(from+2*amount+1)
+				}
+				log.add(RangeEv{Tr: curTr, Ev: "start", From: from2, Amount: amount, Chunk: chunk, Mode: mode, Capable: capable})
 				done2 := make(chan out, 1)
 				go func() {
 					var o out
@@ -349,7 +364,7 @@ func TestRange(t *testing.T) {
 					}()
 					ctx, cancel := context.WithTimeout(bg, 2*time.Minute)
 					defer cancel()
-					o.hs, o.err = ex.GetRangeByHeight(ctx, chain.At(uint64(from)), toU)
+					o.hs, o.err = ex.GetRangeByHeight(ctx, chain.At(uint64(from2)), toU2)
 				}()
 				res2 := RangeEv{Tr: curTr, Ev: "result"}
 				time.Sleep(3 * time.Minute)
